@@ -1469,7 +1469,7 @@ CyclicDependencyError and for AttributeError, `ShapeError` for IndexError):
 == S16c bool input given as int 0/1 and as 2
    ERROR ValueError
 == S16d data columns override aggregation functions (count -> int annotation, sum of bool rule -> int)
-   usen: float [4.000000, 4.000000, 3.000000, 3.000000, 3.000000]
+   usen: int [4, 4, 3, 3, 3]
 == S16e overriding column for the automatic sum of a bool rule is converted to int
    use2: int [1, 1, 0, 0, 0]
 == S17 a rule named like a grouping function is ignored
